@@ -19,25 +19,40 @@ Proof.
 Qed.
 
 Lemma add_fields_spec l : forall s s', add_fields rank l s = inl s' ->
-  s' = with_unatt (unatt s') s /\ (forall x, In x (unatt s') <-> In x (unatt s) \/ In x l).
+  s' = with_unatt (unatt s') s /\ (forall x, In x (unatt s') <-> In x (unatt s) \/ In x l) /\
+  (forall x, In x l -> In x (fmap s)).
 Proof.
   induction l as [|f l IH]; intros s s' H; cbn [add_fields] in H.
-  - inversion H; subst. split; [destruct s'; reflexivity|]. intros x. cbn. tauto.
-  - destruct (mem f (fmap s)); [|discriminate].
-    destruct (IH _ _ H) as [E Hin]. split.
+  - inversion H; subst. split; [destruct s'; reflexivity|]. split; [intros x; cbn; tauto|intros x []].
+  - destruct (mem f (fmap s)) eqn:Em; [|discriminate]. apply mem_in in Em.
+    destruct (IH _ _ H) as (E & Hin & Hfm). split; [|split].
     + rewrite E at 1. unfold with_unatt, add_unattempted. cbn. reflexivity.
     + intros x. rewrite Hin. unfold add_unattempted. cbn [unatt]. rewrite sort_rank_in, in_app_iff. cbn. tauto.
+    + intros x [<-|Hx]; [exact Em|]. apply (Hfm x Hx).
 Qed.
 
-Theorem solve_Inv fuel R FN I hp s :
-  solve C rank fuel R FN I hp ans = inl s -> Inv C true [] s /\ loop_cond s = false.
+Definition start_state (FN:list name) (s1:state) : state :=
+  State (inp s1) (specs s1) (forms s1) (fmap s1) (vals s1) (unatt s1) (unimpl s1)
+        (add_names FN (solving s1)) (fdep s1) (idep s1) (refused s1) (trace s1) (edges s1).
+
+Lemma solve_prefix fuel R FN I hp s :
+  solve C rank fuel R FN I hp ans = inl s ->
+  exists s0 s1, add_forms C rank R (init_state I hp) = inl s0 /\ add_fields rank FN s0 = inl s1 /\
+    main_loop C rank fuel ans (start_state FN s1) = inl s.
 Proof.
   unfold solve. intros H.
   destruct (add_forms C rank R (init_state I hp)) as [s0|e] eqn:E0; [|discriminate].
   destruct (add_fields rank FN s0) as [s1|e] eqn:E1; [|discriminate].
-  apply (main_loop_Inv C rank ans _ _ _) with (2:=H).
+  exists s0, s1. auto.
+Qed.
+
+Lemma start_Inv R FN I hp s0 s1 :
+  add_forms C rank R (init_state I hp) = inl s0 -> add_fields rank FN s0 = inl s1 ->
+  Inv C true [] (start_state FN s1).
+Proof.
+  intros E0 E1.
   pose proof (add_forms_Inv _ _ _ (Inv_init I hp) E0) as H0.
-  destruct (add_fields_spec _ _ _ E1) as [E Hin]. rewrite E. unfold with_unatt. cbn.
+  destruct (add_fields_spec _ _ _ E1) as (E & Hin & _). rewrite E. unfold start_state, with_unatt. cbn.
   constructor; unfold srun in *; cbn; try (apply H0).
   - intros f Hf. apply add_names_in. apply Hin in Hf. destruct Hf as [Hf|Hf]; [right; apply (i_unatt_sol _ _ _ _ H0 f Hf)|auto].
   - intros f [].
@@ -48,6 +63,13 @@ Proof.
   - intros f Hf. apply add_names_in in Hf. destruct Hf as [Hf|Hf].
     + left. apply Hin. auto.
     + destruct (i_part _ _ _ _ H0 f Hf) as [X|X]; [left; apply Hin; auto|right; exact X].
+Qed.
+
+Theorem solve_Inv fuel R FN I hp s :
+  solve C rank fuel R FN I hp ans = inl s -> Inv C true [] s /\ loop_cond s = false.
+Proof.
+  intros H. destruct (solve_prefix _ _ _ _ _ _ H) as (s0 & s1 & E0 & E1 & Hm).
+  apply (main_loop_Inv C rank ans _ _ _ (start_Inv _ _ _ _ _ _ E0 E1) Hm).
 Qed.
 
 (** what the loop's exit condition says *)
